@@ -338,18 +338,19 @@ def c13_jobs(tier):
     for sc in ('2E4', '1E6', '1E8'):
         jobs.append(J('rddetector', 'PY:rddetector_columns_' + sc, [], stubs=['tools']))
     jobs.append(J('rddetector', 'PY:rddetector_count', [], stubs=['tools']))
+    jobs.append(J('rddetector', 'PY:rddetector_writer', [], stubs=['tools']))
     return jobs
 
 
 def c20_jobs(tier):
-    return [J('rdgen', 'PY:rdgen_files_%d' % i, [], stubs=['tools']) for i in range(5)]
+    return [J('rdgen', 'PY:rdgen_files_%d' % i, [], stubs=['tools']) for i in range(6)]
 
 
 PROPS = {
     'C20': {
         'jobs': c20_jobs,
         'technique': 'symbolic execution of the real main/worker code (go/ssa) with the file-system and flag calls recorded and the random source returning fresh symbolic bytes; the recorded operations are compared with the specification (sequentialised schedule of the writer goroutines)',
-        'bounds': {'quick': 'five configurations (s, n, output) = (1,64,default), (3,20000,default), (3,64,/abs/out), (2,20000,rel/nested/dir), (5,64,/x): files created, names, sizes, directory, Done per job, fresh content per file',
+        'bounds': {'quick': 'six configurations (s, n, output) = (1,64,default), (3,20000,default), (3,64,/abs/out), (2,20000,rel/nested/dir), (5,64,/x), (2,10^8,/big): files created, names, sizes, directory, Done per job, fresh content per file',
                    'thorough': 'same'},
         'outside': 'the real file system (permissions: directories are created with mode 0600), the actual randomness of crypto/rand, interleavings of the writer goroutines (one schedule), acceptance by the batch detector (its file counting is not modelled), s in the hundreds',
         'assumptions': ['crypto/rand.Reader.Read fills the whole buffer', 'filepath.Abs is path normalisation relative to the working directory', 'os.OpenFile/MkdirAll succeed'],
@@ -357,7 +358,7 @@ PROPS = {
     'C13': {
         'jobs': c13_jobs,
         'technique': 'solver-style symbolic execution of the real worker code (go/ssa) with every library test an uninterpreted function of (file content, parameters): the term in each report column is compared with the term the header label names (data-flow equality of terms; complete over file contents, no search needed)',
-        'bounds': {'quick': 'worker_2E4 / worker_1E6 / worker_1E8 on one file with symbolic content: every one of the 44/64/66 value columns against its header label (test, parameter, P/Q/P1/Q1/P2/Q2), row name, column count; complete for all three scales; toBeTestFileNum over a walk of seven entries with SYMBOLIC kinds (directory/regular) and sizes: sample count and scale inference',
+        'bounds': {'quick': 'worker_2E4 / worker_1E6 / worker_1E8 on one file with symbolic content: every one of the 44/64/66 value columns against its header label (test, parameter, P/Q/P1/Q1/P2/Q2), row name, column count; complete for all three scales; toBeTestFileNum over a walk of seven entries with SYMBOLIC kinds (directory/regular) and sizes: sample count and scale inference; resultWriter on three rows (0, 2, 3 column pairs, a name containing % verbs): exact token stream written, one Done per row',
                    'thorough': 'same'},
         'outside': 'the interleavings of walker / workers / writer goroutines and the file-system traversal are NOT modelled (one job, sequentialised); the numeric values (C01-C05); the 6-decimal formatting is read off resultWriter (format constant) only',
         'assumptions': ['ioutil.ReadFile returns the file bytes', 'library tests are pure functions of (data, parameters) (C18)', 'label grammar: "[k] <P|Q|P1|Q1|P2|Q2> <test name> <param>=<value>" as used by all three headers'],
